@@ -527,7 +527,7 @@ func transformFromBlankNode(row string) string {
 	blankNode := row[prefixIndex+emptyNodePrefixLen : sepIndex]
 	suffix := row[sepIndex+1:]
 
-	return fmt.Sprintf("%s%s%s", prefix, blankNode, suffix)
+	return fmt.Sprintf("%s%s%s", prefix, blankNode, transformFromBlankNode(suffix))
 }
 
 type ellipticCurve struct {
